@@ -87,6 +87,19 @@ func decode(h *hz.H, md protoreflect.MessageDescriptor, in []byte, space string,
 		h.ViolateMin(fmt.Sprintf("C06/unmarshal-panic/%s/%s", md.FullName(), panicClass(p)), fmt.Sprintf("proto.Unmarshal(%x) into %s panicked: %v", clipb(in), md.FullName(), p), mk(), len(in))
 		return
 	}
+	if space == "adversarial-varint" || space == "seed" || space == "depth-discard" {
+		// the same input with DiscardUnknown: the skip path has its own bounds handling
+		gd := enum.NewGo(md)
+		var derr error
+		if p := hz.Catch(func() { derr = proto.UnmarshalOptions{DiscardUnknown: true}.Unmarshal(append([]byte(nil), in...), gd) }); p != nil {
+			h.ViolateMin(fmt.Sprintf("C06/unmarshal-panic(DiscardUnknown)/%s/%s", md.FullName(), panicClass(p)), fmt.Sprintf("UnmarshalOptions{DiscardUnknown:true}.Unmarshal(%x) into %s panicked: %v", clipb(in), md.FullName(), p), mk(), len(in))
+			return
+		}
+		if (derr == nil) != (err == nil) {
+			h.ViolateMin(fmt.Sprintf("C06/discard-changes-acceptance/%s", md.FullName()), fmt.Sprintf("%x into %s: plain decode err=%v, DiscardUnknown decode err=%v (dropping unknown fields must not change whether the input is well-formed)", clipb(in), md.FullName(), err, derr), mk(), len(in))
+			return
+		}
+	}
 	if err != nil {
 		rejected.Add(1)
 		return
@@ -328,6 +341,10 @@ func adversarialVarints() [][]byte {
 	var out [][]byte
 	for _, v := range []uint64{127, 128, 1<<31 - 1, 1 << 31, 1 << 32, 1<<63 - 1, 1 << 63, 1<<64 - 1} {
 		out = append(out, protowire.AppendVarint(nil, v))
+	}
+	// lengths that only overflow once an offset of a few bytes is added to them
+	for _, k := range []uint64{1, 2, 3, 9, 10, 11, 12, 13, 20} {
+		out = append(out, protowire.AppendVarint(nil, 1<<63-1-k))
 	}
 	out = append(out, []byte{0xff, 0xff, 0xff, 0xff, 0xff, 0xff, 0xff, 0xff, 0xff, 0x7f})       // 10 bytes, overflowing
 	out = append(out, []byte{0x80, 0x80, 0x80, 0x80, 0x80, 0x80, 0x80, 0x80, 0x80, 0x80, 0x01}) // 11 bytes
